@@ -305,6 +305,18 @@ def run_typed_ids(seed):
                 if v != w:
                     problems.append({'desc': d, 'msg': f'x({i!r}) of the merged dataset is {v[:120]}, the owner returns {w[:120]}'})
                     return problems
+        # a key of another type that merely PRINTS like an owned id (the string '10' for the id 10, a path, bytes) is owned by nobody
+        import pathlib
+        owned = {i for p in parts for i in p}
+        for i in sorted(owned)[:4]:
+            for twin in (str(i), pathlib.PurePosixPath(str(i)), str(i).encode()):
+                try:
+                    v = fn(twin)
+                except Exception:
+                    continue
+                problems.append({'desc': d, 'msg': f'x({twin!r}) of a Merge whose ids are {sorted(owned)} returned {canon(val_to_json(v, b.world))[:120]}: '
+                                                   f'no dataset owns that key (it only prints like the id {i!r}); unknown ids must be rejected'})
+                return problems
     except Exception as e:
         problems.append({'desc': d, 'msg': 'Merge with non-string ids raised ' + exc_name(e) + ': ' + str(e)[:150]})
     return problems
